@@ -44,6 +44,7 @@ type encCfg struct {
 	Wrapper   string            // present absent failing
 	FailAt    int
 	Ignore    bool // IgnoreTypes = {*Ign}
+	PtrCont   bool // Taggable maps may hold containers addressed by a pointer tag (C09 only: the container is replaced by one filtered value)
 }
 
 // Ign is a type the filter may be told to ignore (IgnoreTypes): values of it are exempt by
@@ -63,7 +64,7 @@ func (c encCfg) String() string {
 		ks = append(ks, k+"->"+v)
 	}
 	sort.Strings(ks)
-	return fmt.Sprintf("overrides=%v wrapper=%s failAt=%d ignoreTypes=%v", ks, c.Wrapper, c.FailAt, c.Ignore)
+	return fmt.Sprintf("overrides=%v wrapper=%s failAt=%d ignoreTypes=%v ptrContainers=%v", ks, c.Wrapper, c.FailAt, c.Ignore, c.PtrCont)
 }
 
 func (c encCfg) allNone() bool {
@@ -717,9 +718,48 @@ func (g *gen) instTMap(path []pstep, untagged bool) reflect.Value {
 		t, _ := g.pointerTag("/not-there")
 		tags = append(tags, t)
 	}
+	hasArr := false
+	if g.r.Intn(4) == 0 {
+		// a []string no pointer tag addresses: its elements are unclassified values like any other
+		arr := make([]string, g.r.Range(1, 3))
+		for i := range arr {
+			arr[i] = g.canary()
+			g.leaves = append(g.leaves, leaf{Path: cp(cp(cp(path, pstep{K: 'M', Key: "arr"}), pstep{K: 'E'}), pstep{K: 'I', I: i}), Canary: arr[i], Exp: adj(g.cfg.classify(false, "", ""))})
+		}
+		m["arr"] = arr
+		hasArr = true
+	}
+	if g.cfg.PtrCont && g.r.Intn(3) == 0 {
+		// a container addressed by a pointer tag: whatever the filter makes of the container, none of the
+		// plaintext in it may be readable when the tag asks for protection
+		t, exp := g.pointerTag("/pc")
+		tags = append(tags, t)
+		c1, c2 := g.canary(), g.canary()
+		// ([]interface{} is not among the supported shapes: its strings are not looked at, see DESIGN 9.3)
+		switch g.r.Intn(3) {
+		case 0:
+			m["pc"] = []string{c1, c2}
+		case 1:
+			m["pc"] = [][]byte{[]byte(c1), []byte(c2)}
+		case 2:
+			m["pc"] = map[string]interface{}{"number": c1, "holder": c2}
+		}
+		if exp.protected() {
+			for i, c := range []string{c1, c2} {
+				g.leaves = append(g.leaves, leaf{Path: cp(cp(cp(path, pstep{K: 'M', Key: "pc"}), pstep{K: 'E'}), pstep{K: 'I', I: 100 + i}), Canary: c, Exp: adj(ProtAny)})
+			}
+		}
+	}
 	if g.r.Intn(40) == 0 && !untagged {
-		// malformed pointer: the filter cannot know what it guards => it must fail closed
-		tags = append(tags, encrypt.PointerTag{Pointer: "no-leading-slash", Classification: encrypt.SecretClassification})
+		// a pointer that cannot be applied: the filter cannot know what it guards => it must fail closed
+		bad := []string{"no-leading-slash", "/__id/deeper"}
+		if n > 0 {
+			bad = append(bad, "/t0/0")
+		}
+		if hasArr {
+			bad = append(bad, "/arr/7")
+		}
+		tags = append(tags, encrypt.PointerTag{Pointer: rt.Pick(g.r, bad), Classification: encrypt.SecretClassification})
 		g.badTag = true
 	}
 	// tags come in any order (an absent optional key may well be listed first)
